@@ -82,6 +82,19 @@ func writeReplay(e *Engine, l *Loaded, prop string, g *groupResult, scratch stri
 	return path, confirmed
 }
 
+// writeReplayNote records a failed obligation that has no solver query behind it.
+func writeReplayNote(prop string, g *groupResult, why string) (string, bool) {
+	dir := filepath.Join(verifRoot, "replays", prop)
+	os.MkdirAll(dir, 0o755)
+	path := filepath.Join(dir, unsafeName.ReplaceAllString(g.Name, "_")+".json")
+	rf := replayFile{Property: prop, Obligation: g.Name, Status: g.Status, Function: g.Func, Mode: g.Mode, Source: g.Pos, Clause: g.Src,
+		Replay: "none", SolverOut: why,
+		Explanation: "the obligation is not discharged on this tree; no failing input was confirmed on the real code (no-failing-input-found)"}
+	b, _ := json.MarshalIndent(rf, "", " ")
+	os.WriteFile(path, b, 0o644)
+	return path, false
+}
+
 func modelSummary(m map[string]string) string {
 	var ks []string
 	for k := range m {
